@@ -3,6 +3,7 @@ C03 — `Chop.calculate` on the ten parameter pairs: the closure plan (decided o
 relation table) unfolds into three concrete relation calls.
 -/
 import CBV.Lemmas.C03
+import CBV.Lemmas.C03Geom
 
 namespace CBV.C03
 
@@ -176,5 +177,146 @@ theorem pair_c2c_total {t : Tol} {L r T : ℚ} {o : Oracle} {res : Vals}
   simp only [applyRel, map_ok] at h2; obtain ⟨b, hb, rfl⟩ := h2
   simp only [applyRel, map_ok] at h3; obtain ⟨c, hc, rfl⟩ := h3
   exact ⟨a, b, c, ha, hb, hc, rfl⟩
+
+/-! ### vocabulary of the property theorems -/
+
+/-- exact solver answers: no slack in any validator -/
+abbrev T0 : Tol := {}
+
+/-- what `Chop.calculate` returns: `(count, total_expansion)`, `none` when it raises -/
+def returned (x : Except (Err × Option Rel) Vals) : Option (Option ℕ × Option ℚ) :=
+  match x with
+  | .ok r => some (r.count, r.total)
+  | .error _ => none
+
+
+/-- the ten supported pairs (in the order of `Vals.known`) -/
+def pairs : List (List Q) :=
+  [[.count, .start], [.count, .end_], [.count, .c2c], [.count, .total], [.start, .end_], [.start, .c2c],
+   [.start, .total], [.end_, .c2c], [.end_, .total], [.c2c, .total]]
+
+def sublistsOf : List Q → List (List Q)
+  | [] => [[]]
+  | q :: qs => (sublistsOf qs).map (q :: ·) ++ sublistsOf qs
+
+/-- all 32 sets of known quantities -/
+def knownSets : List (List Q) := sublistsOf [.count, .start, .end_, .c2c, .total]
+
+/-- every relation of the plan computes a value that is not yet known from two known ones, and the loop
+    reports success exactly when all five values are known at the end -/
+def planSound (K : List Q) : Bool :=
+  match plan K with
+  | none => false
+  | some (steps, _, done) =>
+      let r := steps.foldl
+        (fun (acc : List Q × Bool) rel =>
+          (rel.out :: acc.1, acc.2 && !(acc.1.contains rel.out) && acc.1.contains rel.in1 && acc.1.contains rel.in2))
+        (K, true)
+      r.2 && (done == allFive r.1)
+
+
+/-! ### a given count is never recalculated -/
+
+theorem applyRel_count_eq {t : Tol} {L : ℚ} {o : Oracle} {v v' : Vals} {rel : Rel}
+    (hne : rel.out ≠ .count) (h : applyRel t L o v rel = .ok v') : v'.count = v.count := by
+  unfold applyRel at h
+  split at h <;> (try contradiction) <;>
+    (split at h <;> try contradiction) <;>
+    (rw [map_ok] at h; obtain ⟨a, _, rfl⟩ := h; rfl)
+
+theorem runSteps_count_eq {t : Tol} {L : ℚ} {o : Oracle} :
+    ∀ (steps : List Rel) (v res : Vals), (∀ rel ∈ steps, rel.out ≠ .count) →
+      runSteps t L o steps v = .ok res → res.count = v.count := by
+  intro steps
+  induction steps with
+  | nil => intro v res _ h; rw [runSteps_nil] at h; rw [h]
+  | cons rel rest ih =>
+    intro v res hall h
+    rw [runSteps_cons] at h
+    obtain ⟨v1, h1, h2⟩ := h
+    rw [ih v1 res (fun r hr => hall r (List.mem_cons_of_mem _ hr)) h2]
+    exact applyRel_count_eq (hall rel List.mem_cons_self) h1
+
+theorem known_mem (v : Vals) : v.known ∈ knownSets := by
+  obtain ⟨c, s, e, r, T⟩ := v
+  cases c <;> cases s <;> cases e <;> cases r <;> cases T <;> simp [Vals.known, knownSets, sublistsOf]
+
+theorem plan_keeps_count : ∀ K ∈ knownSets, Q.count ∈ K →
+    (plan K).map (fun p => p.1.all (fun r => decide (r.out ≠ Q.count))) = some true := by decide
+
+theorem given_count {t : Tol} {L : ℚ} {o : Oracle} {v res : Vals} {n : ℕ}
+    (h : calculate t L o v = .ok res) (hn : v.count = some n) : res.count = some n := by
+  have hmem : Q.count ∈ v.known := by
+    unfold Vals.known; rw [hn]; simp
+  have hp := plan_keeps_count v.known (known_mem v) hmem
+  unfold calculate at h
+  cases hpl : plan v.known with
+  | none => rw [hpl] at h; simp at h
+  | some p =>
+    obtain ⟨steps, k, done⟩ := p
+    rw [hpl] at h hp
+    simp only [Option.map_some, Option.some.injEq, List.all_eq_true, decide_eq_true_eq] at hp
+    simp only at h
+    cases hr : runSteps t L o steps v with
+    | error e => rw [hr] at h; simp at h
+    | ok v' =>
+      rw [hr] at h
+      simp only at h
+      split_ifs at h
+      simp only [pure, Except.pure, Except.ok.injEq] at h
+      subst h
+      rw [runSteps_count_eq steps v v' hp hr, hn]
+
+/-! ### the root-finding count -/
+
+/-- what the size-and-total pairs guarantee on the root-finding branch: with `w^(n-1) = T` (the ratio blockMesh
+    uses for `n` cells) the first cell is not coarser than `s`; with one cell fewer (`w'^(n-2) = T`) it is -/
+def SizeTotalSpec (L s T : ℚ) (n : ℕ) : Prop :=
+  (n = 1 → L ≤ s) ∧
+  (2 ≤ n → ∃ w, 0 < w ∧ w ^ (n - 1) = T ∧ firstCell L n w ≤ s) ∧
+  (n = 2 → s ≤ L) ∧
+  (3 ≤ n → ∃ w, 0 < w ∧ w ^ (n - 2) = T ∧ s ≤ firstCell L (n - 1) w)
+
+theorem sizeTotalSpec_of_countTOK {L s T : ℚ} {n : ℕ} {w1 w2 : Option ℚ}
+    (h : countTOK T0 L s T n w1 w2 = true) : 1 ≤ n ∧ SizeTotalSpec L s T n := by
+  unfold countTOK at h
+  simp only [Bool.and_eq_true, decide_eq_true_eq] at h
+  obtain ⟨⟨hn, h1⟩, h2⟩ := h
+  refine ⟨hn, ?_, ?_, ?_, ?_⟩
+  · intro hn1
+    rw [if_pos hn1] at h1
+    simpa using h1
+  · intro hn2
+    rw [if_neg (by omega)] at h1
+    cases w1 with
+    | none => simp at h1
+    | some w =>
+      simp only [Bool.and_eq_true, decide_eq_true_eq] at h1
+      obtain ⟨hp, hle⟩ := h1
+      obtain ⟨hw, hpw⟩ := powOK_zero hp
+      refine ⟨w, hw, hpw, ?_⟩
+      have hg := geomSum_pos (le_of_lt hw) (show 0 < n by omega)
+      rw [gsum_eq_geomSum] at hle
+      unfold firstCell
+      rw [div_le_iff₀ hg]
+      simpa using hle
+  · intro hn2
+    rw [if_neg (by omega), if_pos hn2] at h2
+    simpa using h2
+  · intro hn3
+    rw [if_neg (by omega), if_neg (by omega)] at h2
+    cases w2 with
+    | none => simp at h2
+    | some w =>
+      simp only [Bool.and_eq_true, decide_eq_true_eq] at h2
+      obtain ⟨hp, hle⟩ := h2
+      obtain ⟨hw, hpw⟩ := powOK_zero hp
+      refine ⟨w, hw, hpw, ?_⟩
+      have hg := geomSum_pos (le_of_lt hw) (show 0 < n - 1 by omega)
+      rw [gsum_eq_geomSum] at hle
+      unfold firstCell
+      rw [le_div_iff₀ hg]
+      simpa using hle
+
 
 end CBV.C03
